@@ -85,6 +85,10 @@ type c17Params struct {
 	// CancelMs > 0: the client's context ends that many (virtual) milliseconds after the connections were started,
 	// i.e. while unknown hosts are still being collected for the prompt (2 s window) or the prompt waits for an answer
 	CancelMs int
+	// Reconnect: after the first contact (answered by the first line of the script) the same host is contacted again
+	// through the same callback - a tail client re-connecting - and now presents ANOTHER key; the second line of the
+	// script answers the second prompt
+	Reconnect bool
 }
 
 func (p c17Params) String() string {
@@ -94,6 +98,9 @@ func (p c17Params) String() string {
 	}
 	if p.CancelMs > 0 {
 		s += fmt.Sprintf(" cancel-after=%dms", p.CancelMs)
+	}
+	if p.Reconnect {
+		s += " then-reconnect-with-a-changed-key"
 	}
 	return s
 }
@@ -211,6 +218,34 @@ func c17Scenario(p c17Params, idx int) *explore.Scenario {
 			for range p.Contact {
 				r := results.Recv("wait")
 				got[r[0]] = r[1] == 1
+			}
+			if p.Reconnect {
+				// the re-connect: same host, same callback, but the key presented now is a different one; the second
+				// answer of the script is "n", so nothing may be trusted this time
+				second := vrt.Make[[2]int]("results2", len(p.Contact))
+				for _, hi := range p.Contact {
+					h := c17Hosts[hi]
+					hi := hi
+					throttle.Send("throttle", struct{}{})
+					vrt.Go("redial-"+h.Name, func() {
+						r := 0
+						if cb(h.Server, h.Remote, c17Keys[1-hi]) == nil { // A (key 0) now shows key 1, B (key 2) now shows key 0
+							r = 1
+						}
+						throttle.Recv("unthrottle")
+						second.Send("result", [2]int{hi, r})
+					})
+				}
+				for range p.Contact {
+					r := second.Recv("wait")
+					if r[1] == 1 {
+						viol = fmt.Sprintf("host %s was contacted again through the same client and presented a DIFFERENT key; the user answered \"n\" to the second prompt (or was not asked), yet the client proceeds", c17Hosts[r[0]].Name)
+					}
+				}
+				if viol != "" {
+					cancel()
+					return
+				}
 			}
 			cancel()
 			after, _ := os.ReadFile(path)
@@ -344,6 +379,12 @@ func c17ParamSets(tier string) (ps []c17Params) {
 			}
 			ps = append(ps, c17Params{File: f, Contact: contact, Answer: "", TrustAll: true})
 			if len(f) <= 1 {
+				if len(f) == 0 && len(contact) == 1 {
+					// an unknown host, contacted alone: exactly one prompt per round
+					// (answer "a" = trust all hosts for the rest of the run, so only y and n are followed by a second prompt)
+					ps = append(ps, c17Params{File: f, Contact: contact, Answer: "y\nn\n", Reconnect: true}, c17Params{File: f, Contact: contact, Answer: "yes\nno\n", Reconnect: true},
+						c17Params{File: f, Contact: contact, Answer: "n\nn\n", Reconnect: true})
+				}
 				for _, ms := range []int{500, 1999, 2000, 2500} {
 					ps = append(ps, c17Params{File: f, Contact: contact, Answer: "", CancelMs: ms})
 				}
@@ -367,7 +408,7 @@ func init() {
 		ID:    "C17",
 		Level: "model_checking",
 		Rule: "known-hosts files = all sequences of <=2 (quick) / <=3 (thorough) lines over 10 line kinds (entry for A with the right key, with a changed key, entry for B, hashed entry, multi-host entry, IP entry, comment, blank, @revoked line, unrelated host); " +
-			"contacted servers {A}, {B}, {A,B} with their current keys; the callback obtained directly and (files of <=1 line) through the client's InitSSHAuthMethods with an explicit private key file and with ~/.ssh/id_rsa; the client's context ending 500..2500 ms after connecting with no answer on stdin (no callback may then answer 'trusted' for an unknown host); answers y / n / a / d+y / garbage+n / yes / no / empty line+n / 'ye'+n / 'Y'+no / blank+n / 'nope'+n, and trust-all; the real Wrap() callbacks run as goroutines against the real PromptAddHosts loop (2 s batching timer in virtual time, scripted stdin), " +
+			"contacted servers {A}, {B}, {A,B} with their current keys; the callback obtained directly and (files of <=1 line) through the client's InitSSHAuthMethods with an explicit private key file and with ~/.ssh/id_rsa; a re-connect of the same client to a host that now presents another key (second prompt answered n); the client's context ending 500..2500 ms after connecting with no answer on stdin (no callback may then answer 'trusted' for an unknown host); answers y / n / a / d+y / garbage+n / yes / no / empty line+n / 'ye'+n / 'Y'+no / blank+n / 'nope'+n, and trust-all; the real Wrap() callbacks run as goroutines against the real PromptAddHosts loop (2 s batching timer in virtual time, scripted stdin), " +
 			"all schedules with <=1 deviation; oracle: proceed <=> x/crypto knownhosts accepts the key OR the user approved OR trust-all; a refused host is reported untrusted; the file afterwards accepts every newly trusted host, keeps every unrelated old line byte-identical " +
 			"and in order, adds nothing else, and is unchanged when nobody was newly trusted",
 		Assumptions: []string{
